@@ -551,7 +551,7 @@ func (g *c08Gen) value(rt reflect.Type, field, l string) reflect.Value {
 	case reflect.Struct:
 		return g.structValue(rt, l)
 	}
-	g.t.Fatalf("harness: no generator for configuration type %v (parameter %q) - extend c08Gen.value", rt, field)
+	g.t.Fatalf("VERIF-INCONCLUSIVE: harness: no generator for configuration type %v (parameter %q) - extend c08Gen.value", rt, field)
 	return reflect.Value{}
 }
 
@@ -628,7 +628,7 @@ func (g *c08Gen) set(dst reflect.Value, f reflect.StructField, l string) reflect
 	c08FieldsGenerated[scope+f.Name]++
 	target := dst.FieldByName(f.Name)
 	if !target.IsValid() {
-		g.t.Fatalf("harness: %v has no field %s", dst.Type(), f.Name)
+		g.t.Fatalf("VERIF-INCONCLUSIVE: harness: %v has no field %s", dst.Type(), f.Name)
 	}
 	val := g.value(f.Type, f.Name, l+"."+f.Name)
 	c08Assign(target, val)
@@ -656,7 +656,7 @@ func c08Assign(target, val reflect.Value) {
 func (g *c08Gen) setOpt(values reflect.Value, name string, v any, l string) {
 	f, ok := reflect.TypeOf(Path{}).FieldByName(name)
 	if !ok {
-		g.t.Fatalf("harness: Path has no field %s", name)
+		g.t.Fatalf("VERIF-INCONCLUSIVE: harness: Path has no field %s", name)
 	}
 	val := reflect.ValueOf(v)
 	base := f.Type
